@@ -191,7 +191,6 @@ theorem cover_group_embeds {ds c : DSymData} {n : Nat} {ρ : TGroup ds →* Equi
           (hDmk (tau ρ (cproj ds.size (decD c j)) (decI c j) k) _ hb'.1 hb'.2)
           (p * (C * xT c (decD c j) (decI c j) * C⁻¹))
         rw [← hopx] at hstep3
-        rw [Equiv.Perm.eq_inv_iff_eq.symm.symm] at hstep3
         have hgoal : stepX ρ ℓ (cproj ds.size (decD c j)) (decI c j)
             (k, p * C * (ℓ k (cproj ds.size (decD c j)))⁻¹) =
             (tau ρ (cproj ds.size (decD c j)) (decI c j) k,
